@@ -174,6 +174,8 @@ def _run(lines, drop, when, legit):
             try:
                 pool.settle()
             except Spin:
+                ra.raised = 99
+            if ra.raised > 25:          # (asyncio stores a BaseException raised inside a task instead of propagating it)
                 return "after client A's connection was reset its handler spins on readline() without yielding: the pool's event loop is frozen (A sent %s)" % [l for l, d in lines]
         # let everything that was started run to its end
         for _ in range(6):
